@@ -39,6 +39,42 @@ needs={
  'C17-B':'one declaration used from two modules at exactly the same line/column range',
  'C18-A':'rename requested on a use in the importing module of a declaration of another module',
  'C18-B':'an occurrence of the renamed identifier as first token at column 0 of a line other than the first',
+ 'C01-D':'a declaration cycle made only of aliases (`let a = b; let b = a;`, `rec x x`) whose kind is forced to a schema elsewhere, reachable from a resource',
+ 'C01-E':'a recursive declaration whose recursive use comes after an inline `rec` in the same declaration',
+ 'C02-D':'a query / header property whose *schema* carries `required: true` while the property itself is optional',
+ 'C02-E':'a second use of a reference (@ or recursive) declaration with use-site annotations of its own',
+ 'C03-D':'a path variable and a query property of the same URI with the same name',
+ 'C03-E':'a chain of two alias declarations (`@a = @b; @b = @c`, or on a declaration cycle) and a use of the outer one',
+ 'C04-D':'as C01-E, reached from text',
+ 'C04-E':'didOpen with unsaved text, didClose, the file on disk has an error after a multi-byte character that a stale line start falls into',
+ 'C05-D':'two modules each with an implicit recursive component at the same node index',
+ 'C05-E':'an inlined declaration used with value-level annotations at the use site (minimum, pattern, description of a content ...)',
+ 'C06-D':'a `tags` / `enum` annotation with a repeated value and at least two distinct ones',
+ 'C06-E':'two different programs compiled one after the other in one process, an annotated declaration at the same node index',
+ 'C07-D':'one kind variable meeting a URI and a relation in different declarations, the URI use first',
+ 'C07-E':'an import of a function with an unresolved kind variable and a local declaration with the same variable number',
+ 'C08-D':'an unqualified import and a local declaration of the same name (must be rejected), or a `use` after the first use of an imported name',
+ 'C08-E':'a function body naming a module declaration, applied from inside a function / rec whose binder has the same name',
+ 'C09-D':'a function whose body has a rec depending on a parameter with a second rec inside that mentions only the outer rec variable, applied twice',
+ 'C09-E':'two consecutive alias declarations on a declaration cycle',
+ 'C10-D':'a `use` statement after a declaration or resource',
+ 'C10-E':'the same file imported twice in one module under different qualifiers, a name used through the second import',
+ 'C11-D':'an identifier followed by `.` not followed by an identifier (`a. ;`, `m.str`)',
+ 'C11-E':'an annotation that is not YAML with a multi-byte character before the position of the YAML error',
+ 'C12-D':'parentheses directly nested in parentheses >= 4 deep',
+ 'C12-E':'inputs of tens of thousands of tokens (only CPU time shows it, not the read counter)',
+ 'C13-D':'a target file that exists and is longer than the new document',
+ 'C13-E':'a source whose only errors are lexical',
+ 'C14-D':'a base and a program with a `tags` annotation naming a tag the base does not declare',
+ 'C14-E':'a base declaring `openapi: 3.0.0` .. `3.0.2`',
+ 'C15-D':'one didChange with two ranged changes in document order, the first changing the length',
+ 'C15-E':'didOpen of a file the server already read from disk, with another text',
+ 'C16-D':'an offset at the end of a text that ends with a line break',
+ 'C16-E':'edit without saving, conversion, didClose, later conversion in that file',
+ 'C17-D':'a multi-line binding construct starting at a column > 0',
+ 'C17-E':'didOpen + unsaved change of the binding relation (or layout), evaluation, didClose, then a request',
+ 'C18-D':'two modules using the same qualifier name, rename of the qualifier in one',
+ 'C18-E':'prepareRename with the cursor on the qualifier part of a qualified use',
 }
 rows=[]
 for d in sorted(glob.glob('seeded/*/')):
@@ -50,7 +86,7 @@ for d in sorted(glob.glob('seeded/*/')):
     m['needs_to_manifest']=needs.get(n,m.get('needs_to_manifest'))
     json.dump(m,open(d+'meta.json','w'),indent=1)
     sig=(det.get('first_signature') or '')[:70].replace('|','\\|')
-    rows.append(f"| {n} | `{', '.join(f.replace('oal-','').replace('/src/','/') for f in files)}` | {needs.get(n,'')} | {n[:3]} quick: `{sig}` ({det.get('seconds')} s) |")
+    rows.append(f"| {n} | `{', '.join(f.replace('oal-','').replace('/src/','/') for f in files)}` | {needs.get(n,'')} | {n[:3]} quick: `{sig}` ({det.get('seconds')} s){' — after strengthening' if m.get('first_missed') else ''} |")
 table='\n'.join(rows)
 new=open('tools/design11_body.md').read().replace('@@TABLE@@',table)
 marker='\n---------------------------------------------------------------------------------------\n\n## Appendix A.'
